@@ -336,7 +336,7 @@ PROPS["C01"] = dict(
 PROPS["C02"] = dict(
     units=_bt_units(_BT_THOROUGH),
     quick=_bt_runs(_BT_QUICK[:4], "asan", 100, "C02", heavy_div=6),
-    thorough=_bt_runs(_BT_THOROUGH, "asan", 2500, "C02", timeout=7200, heavy_div=6),
+    thorough=_bt_runs(_BT_THOROUGH, "asan", 1200, "C02", timeout=7200, heavy_div=6),
     rule=_BT_RULE + " After every mutating operation: tree.verify() (die -> exception), an independent walker "
     "through TLX_BTREE_FRIENDS (equal leaf depth, fill bounds, key order inside and across nodes, separator "
     "== max of child, leaf chain both directions == in-order leaves, stats == counted, strictness for unique "
